@@ -19,6 +19,7 @@ type StopGate struct {
 	events []string
 	open   bool
 	cond   *sync.Cond
+	rec    *freeRecorder // free-running mode: record only (stopfree.go)
 }
 
 func newStopGate() *StopGate {
@@ -38,6 +39,10 @@ func who(point string) string {
 }
 
 func (g *StopGate) hit(point string) {
+	if g.rec != nil {
+		g.rec.log(point, "", "")
+		return
+	}
 	p := who(point)
 	g.mu.Lock()
 	g.events = append(g.events, point)
